@@ -1207,7 +1207,7 @@ def project(rec, names, proto_from, cls_prefix, lens=None):
             return ("num", v[0][1], lens.get(names[key]))
         if v[0][0] == "ProtocolType":
             # V9 decodes PROTOCOL as a name: the view must give the number of that name (repair
-            # 39ac76d); only `Unknown` (byte 145) does not keep its number
+            # 39ac76d); only `Unknown` (bytes 145..254) does not keep its number
             n = IANA_NUMBER.get(v[0][1])
             if cls_prefix.endswith("v9") and key == "proto" and n is not None:
                 return ("must", n)
@@ -1235,6 +1235,9 @@ def project(rec, names, proto_from, cls_prefix, lens=None):
     exp = {"src_addr": ip("src4", "src6"), "dst_addr": ip("dst4", "dst6"), "src_port": num("sport", 16), "dst_port": num("dport", 16),
            "protocol_number": num("proto", 8), "first_seen": num("first", 32), "last_seen": num("last", 32),
            "src_mac": mac("smac"), "dst_mac": mac("dmac")}
+    pv = vm.get(names["proto"])
+    if pv is not None and pv[0][0] == "ProtocolType" and pv[0][1] != "Unknown":
+        exp["__decoded_protocol_name__"] = pv[0][1]      # V9: the record's own protocol name
     return exp, classes
 
 
@@ -1243,6 +1246,13 @@ def flow_diff(exp, got, widths, cls_prefix, proto_from):
     out = []
     g = plain(got)
     for key, want in exp.items():
+        if key == "__decoded_protocol_name__":
+            # "protocol number and name equal the decoded field" (V9: the record holds a name).  Until
+            # repair 5481932 the view derived the name from the number through From<u8>, whose table
+            # names 0, 1, 144 and 255 differently from the enum the record was decoded with
+            if g.get("protocol_type") != want:
+                out.append((None, "protocol_type %r for a record whose protocol was decoded as %r (number %r)" % (g.get("protocol_type"), want, g.get("protocol_number"))))
+            continue
         have = g.get(key)
         if want == "ANY":
             # a value the view's type cannot express (class recorded by the caller): the documented
@@ -1270,8 +1280,11 @@ def flow_diff(exp, got, widths, cls_prefix, proto_from):
             continue
         if have != want:
             out.append((None, "%s = %r, the record's field is %r" % (key, have, want)))
-    # protocol name must be the table's name of the number, when a number is there
-    if g.get("protocol_number") is not None:
+    # protocol name must be the table's name of the number, when a number is there and the record
+    # held a plain number (IPFIX, or a V9 field of another width)
+    if "__decoded_protocol_name__" in exp:
+        pass
+    elif g.get("protocol_number") is not None:
         if g.get("protocol_type") != proto_from.get(g["protocol_number"]):
             out.append((None, "protocol_type %r for number %r" % (g.get("protocol_type"), g["protocol_number"])))
     elif g.get("protocol_type") is not None:
@@ -1400,7 +1413,7 @@ def c13(case, obs, crash, tables):
                 for c_ in classes:
                     key = "protocol_number" if c_.endswith("_protocol") else None
                     if c_.endswith("_protocol") and gl.get("protocol_number") is None:
-                        f.append((c_, "%s record has a protocol field decoded as Unknown (byte 145 keeps no number): the common flow has no protocol number/name" % kind))
+                        f.append((c_, "%s record has a protocol field decoded as Unknown (a byte of 145..254 keeps no number): the common flow has no protocol number/name" % kind))
                     if c_.endswith("_switched") and (gl.get("first_seen") is None or gl.get("last_seen") is None):
                         f.append((c_, "%s record has first/last switched whose millisecond count exceeds 32 bits: the common flow lacks them" % kind))
     # F ops: flat view = concatenation of the flows of the non-error packets of the twin B op
